@@ -250,6 +250,10 @@ def macro_body_part(v, quick, rng, extra_hooks):
     for dev in ("dollar", "leadbs", "noesc", "cmtglue"):
         r = vlib.tlc_model_check("MC_MacroBody.tla", "MC_MacroBody_refute_%s.cfg" % dev, workers=4, expect_violation=True)
         v.add_mc("MC_MacroBody_refute_" + dev, r, "refutation: the behaviour before the repair contradicts the reading")
+    r = vlib.tlc_model_check("MC_MacroActual.tla", "MC_MacroActual_%s.cfg" % ("quick" if quick else "thorough"), workers=8)
+    v.add_mc("MC_MacroActual", r, "ClosedInv, TrailingInv, MinimalInv for every well-formed raw argument text of the bound")
+    r = vlib.tlc_model_check("MC_MacroActual.tla", "MC_MacroActual_refute_trim.cfg", workers=2, expect_violation=True)
+    v.add_mc("MC_MacroActual_refute_trim", r, "refutation: plain trim_end binds a value that ends inside a one-line comment (D27)")
     cov, r = vlib.tlc_export("MC_MacroBody.tla", "MC_MacroBody_cover%d.cfg" % (5 if quick else 6), tag="TRANSITIONS", workers=1)
     v.add_mc("MC_MacroBody_cover", r, "distinct <<control state, branch>> pairs of the machine exercised at the bound: %s" % cov)
     v.cov["macro_body_machine_transitions"] = cov
